@@ -27,6 +27,8 @@ type logEntry struct {
 	desc       string
 	mustRefuse bool // an ordinary command addressed to a hash slot the slot does not own
 	plain      bool // an ordinary, undamaged command (never allowed to touch a foreign hash slot)
+	isDelta    bool // an undamaged apply-delta command for hash slot deltaHS
+	deltaHS    uint16
 
 	res      []byte // reference result (nil when rejected)
 	rejected bool
@@ -48,6 +50,7 @@ type c13World struct {
 	foreign  uint16
 	tracked  []uint16 // owned + foreign
 	memTable int
+	outgoing map[uint16]multiraft.SlotID
 
 	ref   *node
 	reps  []*replica
@@ -82,6 +85,7 @@ func runC13(t *testing.T, r *simkit.Run) {
 
 func (w *c13World) newNode(name string) *node {
 	n := newNode(w.r, name, w.slot, w.owned, w.legacy, w.memTable)
+	n.outgoing = w.outgoing
 	w.nodes = append(w.nodes, n)
 	return n
 }
@@ -107,7 +111,13 @@ func (w *c13World) run() {
 	migBias := 2 + tp.Intn(6)
 	rtBias := 1 + tp.Intn(4)
 	maintBias := tp.Intn(3)
-	r.Config = map[string]any{"slot": w.slot, "legacy": w.legacy, "owned": fmt.Sprint(w.owned), "cmds": nCmds, "nofaults": noFaults, "max_batch": maxBatch,
+	abortW := 1 + tp.Intn(6)
+	if tp.Intn(4) == 0 {
+		// an outgoing hash-slot migration is configured: every command on that hash
+		// slot is also staged into the migration outbox
+		w.outgoing = map[uint16]multiraft.SlotID{w.owned[0]: 20}
+	}
+	r.Config = map[string]any{"outgoing": len(w.outgoing) > 0, "abort_w": abortW,"slot": w.slot, "legacy": w.legacy, "owned": fmt.Sprint(w.owned), "cmds": nCmds, "nofaults": noFaults, "max_batch": maxBatch,
 		"memtable": w.memTable, "malformed_bias": malformedBias, "unowned_bias": unownedBias, "mig_bias": migBias, "rt_bias": rtBias, "maint_bias": maintBias}
 
 	w.misc = &miscGen{tp: tp, slot: w.slot, owned: w.owned, foreign: w.foreign}
@@ -116,7 +126,7 @@ func (w *c13World) run() {
 	}
 	w.prop = &rtProposer{id: 0, cache: map[string]*rtMeta{}}
 	taskCounter := 0
-	w.gen = migGenCfg{fenceTTL: 2000, ownerTTL: 3000, rogue: true, nextTaskID: &taskCounter}
+	w.gen = migGenCfg{fenceTTL: 2000, ownerTTL: 3000, rogue: true, abortW: abortW, nextTaskID: &taskCounter}
 	w.now = 10_000
 	for i := 0; i < 2; i++ {
 		w.execs = append(w.execs, &executor{id: i, node: uint64(11 + i), views: map[string]execView{}})
@@ -266,7 +276,7 @@ func (w *c13World) appendCommand(malformedBias, unownedBias, migBias, rtBias, ma
 		e = logEntry{hs: c.hs, data: c.data, desc: c.desc}
 	default:
 		c := w.misc.maintenanceCmd(uint64(len(w.log)))
-		e = logEntry{hs: c.hs, data: c.data, desc: c.desc}
+		e = logEntry{hs: c.hs, data: c.data, desc: c.desc, isDelta: c.isDelta, deltaHS: c.deltaHS}
 		ordinary = false
 	}
 	if ordinary && unownedBias > 0 && tp.Chance(unownedBias, 16) {
@@ -281,7 +291,7 @@ func (w *c13World) appendCommand(malformedBias, unownedBias, migBias, rtBias, ma
 		e.data, how = mutateBytes(tp, e.data)
 		e.desc = "MALFORMED(" + how + ") " + e.desc
 		e.mustRefuse = false // a damaged payload may decode as anything
-		ordinary = false
+		ordinary, e.isDelta = false, false
 		r.Fault("malformed_payload")
 	}
 	e.plain = ordinary
@@ -325,6 +335,14 @@ func (w *c13World) appendCommand(malformedBias, unownedBias, migBias, rtBias, ma
 			r.FailSig("unowned-hash-slot-written", "", fmt.Sprintf("#%d %s changed hash slot %d, which the slot does not own: %s", e.idx, e.desc, w.foreign, snapDiff(pre[fi], post[fi])), nil)
 			return
 		}
+		if e.isDelta {
+			for i, hs := range w.tracked {
+				if hs != e.deltaHS && !bytes.Equal(pre[i], post[i]) {
+					r.FailSig("delta-wrote-other-hash-slot", "", fmt.Sprintf("#%d %s is a delta of hash slot %d but changed hash slot %d (owned: %v): %s", e.idx, e.desc, e.deltaHS, hs, w.owned, snapDiff(pre[i], post[i])), nil)
+					return
+				}
+			}
+		}
 		if d := w.ref.durable(); d > e.idx {
 			r.FailSig("applied-index-ahead", "", fmt.Sprintf("durable applied index %d after entry %d", d, e.idx), nil)
 			return
@@ -341,6 +359,17 @@ func (w *c13World) appendCommand(malformedBias, unownedBias, migBias, rtBias, ma
 		n += snapEntries(post[i])
 	}
 	r.State("c13", len(w.log) > 0, n/4, e.rejected)
+}
+
+func resultKind(b []byte) string {
+	switch s := string(b); s {
+	case "ok", "hash_slot_fenced", "stale_meta":
+		return s
+	}
+	if len(b) >= 4 && b[0] == 'W' && b[1] == 'K' {
+		return "typed:" + string(b[:4])
+	}
+	return "data"
 }
 
 func (w *c13World) outcome(e logEntry) string {
@@ -383,7 +412,7 @@ func (w *c13World) compareOne(f *replica, e logEntry, res []byte, err error, how
 	case err != nil && errClass(err) != e.errCls:
 		r.FailSig("outcome-divergence", "error-class", fmt.Sprintf("#%d %s: reference replica rejected with %s, replica %s (%s) with %s", e.idx, e.desc, e.errCls, f.n.name, how, errClass(err)), nil)
 	case err == nil && !bytes.Equal(res, e.res):
-		r.FailSig("result-divergence", how, fmt.Sprintf("#%d %s: reference replica (applied alone) returned %q, replica %s (%s) returned %q", e.idx, e.desc, e.res, f.n.name, how, res), nil)
+		r.FailSig("result-divergence", resultKind(e.res)+"->"+resultKind(res), fmt.Sprintf("#%d %s: reference replica (applied alone) returned %q, replica %s (%s) returned %q", e.idx, e.desc, e.res, f.n.name, how, res), nil)
 	default:
 		return true
 	}
@@ -442,7 +471,7 @@ func (w *c13World) deliver(f *replica, size, crashAt, crashPct int) {
 		}
 		r.Probe("batch_rejected_then_single")
 		if clone == nil {
-			if !w.checkState(f, "after a failed ApplyBatch") {
+			if !w.checkState(f, "after-failed-batch") {
 				return
 			}
 			for _, e := range entries {
@@ -474,7 +503,7 @@ func (w *c13World) deliver(f *replica, size, crashAt, crashPct int) {
 	if crashAt > 0 {
 		r.Probe("crash_point_not_reached")
 	}
-	w.checkState(f, "after "+how)
+	w.checkState(f, "after-apply")
 }
 
 // recover: after a restart the replica continues from its durable applied
@@ -498,7 +527,7 @@ func (w *c13World) recover(f *replica, lo, hi int) {
 	}
 	f.pos = d
 	r.Logf("%s recovers with durable applied index %d, replays from #%d", f.n.name, d, d+1)
-	w.checkState(f, "after restart")
+	w.checkState(f, "after-restart")
 }
 
 // durablePos: the applied index the reference replica reported after pos entries
@@ -584,5 +613,5 @@ func (w *c13World) snapshotRestore(f *replica) {
 		r.FailSig("restore-applied-index", "", fmt.Sprintf("after restoring a snapshot at #%d the durable applied index is %d", srcPos, d), nil)
 		return
 	}
-	w.checkState(f, "after snapshot restore")
+	w.checkState(f, "after-snapshot-restore")
 }
